@@ -18,8 +18,8 @@ type NF5Packet struct {
 	EngType   uint8  `json:"engtype"`
 	EngID     uint8  `json:"engid"`
 	SmpInt    uint16 `json:"smpint"`
-	Recs      []Hex  `json:"recs"`           // carried records, 48 octets each
-	Tail      Hex    `json:"tail,omitempty"` // extra octets after the last full record (possibly a partial record)
+	Recs      []Hex  `json:"recs"`                 // carried records, 48 octets each
+	Tail      Hex    `json:"tail,omitempty"`       // extra octets after the last full record (possibly a partial record)
 	CutHeader int    `json:"cut_header,omitempty"` // when >0 the datagram is only the first CutHeader (<24) octets
 }
 
